@@ -67,6 +67,19 @@ def install_reader_gates(cfg, fine):
         builtins.open = g_open; io.open = g_open
 
 
+class CursorProxy:
+    """sqlite: every statement is a scheduling point (statement + its commit run as one step: the lock is never held across a gate)"""
+    def __init__(self, cur, path): self._cur = cur; self._path = path
+    def execute(self, sql, *a):
+        sched_gate('sql:' + sql.split()[0].lower(), self._path)
+        return self._cur.execute(sql, *a)
+    def __getattr__(self, n): return getattr(self._cur, n)
+
+
+def gate_sql(a, root):
+    a._engine = CursorProxy(a._engine, os.path.join(root, 'arch.db'))
+
+
 def main():
     global CTL_W, CTL_R
     job = json.load(open(sys.argv[1]))
@@ -81,6 +94,7 @@ def main():
         import klepto._archives   # import everything before gating
         if job['role'] == 'writer':
             a = FC.raw_archive(cfg, loc) if op[0] not in ('open',) else None
+            if cfg['kind'] == 'sql': gate_sql(a, job['root'])
             FC.gate = sched_gate               # mutating calls report to the scheduler instead of counting
             report(dict(ready=True)); wait_go()
             if op[0] == 'open' or cfg['kind'] == 'file': FC.install_now(); install_reader_gates(cfg, job.get('fine', False))
@@ -91,6 +105,7 @@ def main():
                 out['res'] = 'EXC:%s:%s' % (type(e).__name__, str(e)[:100])
         else:
             a = FC.raw_archive(cfg, loc)
+            if cfg['kind'] == 'sql': gate_sql(a, job['root'])
             install_reader_gates(cfg, job.get('fine', False))
             report(dict(ready=True)); wait_go()
             cv = lambda v: json.dumps(canonv(v), sort_keys=True)
